@@ -14,7 +14,7 @@ use std::time::{Duration, Instant};
 const MS: u64 = 1_000_000;
 
 #[derive(Clone, Copy, Debug, PartialEq)]
-enum Wake { Plain, Prio, Timer(u64), CancelQ, Nothing }
+enum Wake { Plain, Prio, Timer(u64), CancelQ, Nothing, FarCancelThenPlain(u32) }
 #[derive(Clone, Copy, Debug, PartialEq)]
 enum Recv { Forever, Timeout(u64) }
 
@@ -75,6 +75,22 @@ fn run_sc(sc: &Sc) -> Res {
             }
         }
         Wake::Nothing => {}
+        Wake::FarCancelThenPlain(n) => {
+            // n wake-ups that deliver nothing (a far timer is armed, then cancelled), spread over
+            // the first half of the timeout; then a plain event well inside the timeout
+            for _ in 0..n {
+                let id = s.send_with_timer(300, Duration::from_secs(3600));
+                let (dl, seq) = timer_id_parts(&id);
+                labels.push(format!("TP:1:300:{}:{}", 3_600_000_000_000u64, dl - 3_600_000_000_000u128));
+                labels.push(format!("TC:1:{}", now_ns()));
+                std::thread::sleep(Duration::from_millis(60));
+                s.cancel_timer(id);
+                labels.push(format!("C:{}:{}:{}", dl, seq, now_ns()));
+                std::thread::sleep(Duration::from_millis(60));
+            }
+            s.send(200);
+            labels.push(format!("S:200:{}", now_ns()));
+        }
     }
     let t1b = now_ns();
     // a receive() that can never return must be released (and is not a case)
@@ -102,6 +118,7 @@ fn run_sc(sc: &Sc) -> Res {
         Wake::Nothing => {}
         _ => instants.push(t1b),
     }
+    let t1 = if let Wake::FarCancelThenPlain(_) = sc.wake { t1b } else { t1 };
     if let Some(u) = until { instants.push(u) }
     let mut discarded = false;
     for i in 0..instants.len() {
@@ -115,7 +132,7 @@ fn run_sc(sc: &Sc) -> Res {
     if t1 < t0 { discarded = true; }
     if wedged {
         let imp = "WEDGED".to_string();
-        viol.push(format!("[C16] receiver blocked in {:?} (queued timer {:?} ms) was not woken by {:?} from another thread within 2.5 s (released by a rescue event, got {:?})", sc.recv, sc.dq.map(|d| d / MS), sc.wake, res));
+        viol.push(format!("[C06,C16] receiver blocked in {:?} (queued timer {:?} ms) was not woken by {:?} from another thread within 2.5 s (released by a rescue event, got {:?})", sc.recv, sc.dq.map(|d| d / MS), sc.wake, res));
         return Res { case: labels.join(" "), imp, violations: viol, discarded: false };
     }
     let imp = match res { Some(e) => format!("e:{}", e), None => "n".into() };
@@ -142,7 +159,7 @@ fn run_sc(sc: &Sc) -> Res {
             // nothing may have been deliverable before the timeout
             let deliverable_before: Option<u128> = [
                 if q_live { dlq } else { None },
-                match sc.wake { Wake::Plain | Wake::Prio => Some(t1b), Wake::Timer(_) => wake_deadline.map(|d| d.max(t1b)), _ => None },
+                match sc.wake { Wake::Plain | Wake::Prio | Wake::FarCancelThenPlain(_) => Some(t1b), Wake::Timer(_) => wake_deadline.map(|d| d.max(t1b)), _ => None },
             ].iter().flatten().cloned().min();
             if let Some(t) = deliverable_before {
                 if t + margin < u && !discarded {
@@ -152,6 +169,58 @@ fn run_sc(sc: &Sc) -> Res {
         }
     }
     Res { case: labels.join(" "), imp, violations: viol, discarded }
+}
+
+/// two timers pending at once; the receiver blocks, gets the first, blocks again: the second must
+/// wake it at its own deadline (the alarm has to be re-armed after a delivery)
+fn two_timers_two_receives(out: &mut Out) {
+    for (d1, d2, variant) in [(50u64, 160u64, 0), (50, 160, 1), (0, 120, 0), (40, 45, 1)] {
+        let mut q = EventReceiver::<u64>::default();
+        let s = q.sender().clone();
+        let id1 = s.send_with_timer(100, Duration::from_millis(d1));
+        let id2 = s.send_with_timer(101, Duration::from_millis(d2));
+        let (dl1, _) = timer_id_parts(&id1);
+        let (dl2, _) = timer_id_parts(&id2);
+        let mut labels = vec![format!("TP:0:100:{}:{}", d1 * MS, dl1 - (d1 * MS) as u128), format!("TC:0:{}", dl1 - (d1 * MS) as u128),
+                              format!("TP:0:101:{}:{}", d2 * MS, dl2 - (d2 * MS) as u128), format!("TC:0:{}", dl2 - (d2 * MS) as u128)];
+        let (tx, rx) = mpsc::channel();
+        let _h = std::thread::spawn(move || {
+            let mut res = vec![];
+            for _ in 0..2 {
+                let t0 = now_ns();
+                let r = if variant == 0 { Some(q.receive()) } else { q.receive_timeout(Duration::from_millis(900)) };
+                res.push((t0, r, now_ns()));
+            }
+            tx.send(res).ok();
+            q
+        });
+        match rx.recv_timeout(Duration::from_millis(3000)) {
+            Ok(res) => {
+                let want = [(100u64, dl1), (101u64, dl2)];
+                let mut imp = String::new();
+                for (i, (t0, r, t_end)) in res.iter().enumerate() {
+                    labels.push(format!("RB:{}:{}", if variant == 0 { "-".to_string() } else { (900 * MS).to_string() }, t0));
+                    imp = match r { Some(e) => format!("e:{}", e), None => "n".into() };
+                    if *r != Some(want[i].0) {
+                        out.violation(&format!("[C16,C08] two timers ({} ms, {} ms) pending, consecutive blocking receives: call {} returned {:?} instead of the timer event {}", d1, d2, i + 1, r, want[i].0));
+                    } else if *t_end < want[i].1 {
+                        out.violation(&format!("[C08] timer delivered {} ns early", want[i].1 - t_end));
+                    } else if *t_end > want[i].1 + 1_000_000_000 {
+                        out.violation(&format!("[C16] the second of two pending timers woke the blocked receiver {} ms late", (t_end - want[i].1) / MS as u128));
+                    }
+                    if i == 0 {
+                        // the first call's result is checked by the oracle above; only the last one is compared with the model
+                    }
+                }
+                out.case(&labels.join(" "), &imp);
+                out.count("two_timers_two_blocking_receives");
+            }
+            Err(_) => {
+                s.send(999); s.send(999);
+                out.violation(&format!("[C06,C16] two timers ({} ms, {} ms) pending: two consecutive blocking receives did not both return within 3 s (the second timer did not wake the receiver)", d1, d2));
+            }
+        }
+    }
 }
 
 fn never_early_sweep(out: &mut Out, thorough: bool) {
@@ -219,13 +288,19 @@ pub fn run(a: &Args) {
                     if wake == Wake::CancelQ && dq.is_none() { continue; }
                     // receive() must be certain to return
                     let q_live = dq.is_some() && wake != Wake::CancelQ;
-                    let wake_delivers = matches!(wake, Wake::Plain | Wake::Prio | Wake::Timer(_));
+                    let wake_delivers = matches!(wake, Wake::Plain | Wake::Prio | Wake::Timer(_) | Wake::FarCancelThenPlain(_));
                     if recv == Recv::Forever && !q_live && !wake_delivers { continue; }
                     scs.push(Sc { dq, recv, wake, delta: *delta });
                 }
             }
         }
     }
+    // several wake-ups that deliver nothing before the one that does (remaining time must be recomputed from the start)
+    for n in [2u32, 4] {
+        scs.push(Sc { dq: None, recv: Recv::Timeout(1000 * MS), wake: Wake::FarCancelThenPlain(n), delta: 20 * MS });
+        scs.push(Sc { dq: Some(3_600_000 * MS), recv: Recv::Timeout(1000 * MS), wake: Wake::FarCancelThenPlain(n), delta: 20 * MS });
+    }
+    scs.push(Sc { dq: None, recv: Recv::Forever, wake: Wake::FarCancelThenPlain(2), delta: 20 * MS });
     let n = scs.len();
     let nthreads = 12;
     let scs = std::sync::Arc::new(scs);
@@ -247,7 +322,7 @@ pub fn run(a: &Args) {
     for (i, r) in all {
         let sc = &scs[i];
         out.count(&format!("recv_{}", match sc.recv { Recv::Forever => "receive".to_string(), Recv::Timeout(t) => format!("receive_timeout_{}ms", t / MS) }));
-        out.count(&format!("wake_{}", match sc.wake { Wake::Plain => "plain".into(), Wake::Prio => "priority".into(), Wake::Timer(d) => format!("timer_{}ms", d / MS), Wake::CancelQ => "cancel_queued_timer".into(), Wake::Nothing => "nothing".into() }));
+        out.count(&format!("wake_{}", match sc.wake { Wake::Plain => "plain".into(), Wake::Prio => "priority".into(), Wake::Timer(d) => format!("timer_{}ms", d / MS), Wake::CancelQ => "cancel_queued_timer".into(), Wake::Nothing => "nothing".into(), Wake::FarCancelThenPlain(n) => format!("{}_idle_wakeups_then_plain", n) }));
         for v in &r.violations { out.violation(v); }
         if r.discarded {
             out.count("discarded_decisive_instants_too_close");
@@ -255,6 +330,7 @@ pub fn run(a: &Args) {
             out.case(&r.case, &r.imp);
         }
     }
+    two_timers_two_receives(&mut out);
     never_early_sweep(&mut out, a.thorough);
     out.finish();
 }
